@@ -85,6 +85,7 @@ pub fn exec_wm(st: &mut State, name: &str, t: &[&str]) -> String {
             let mut out: Vec<String> = Vec::new();
             match t[1] {
                 "items" => { let mut it = v.iter(); for c in calls { out.push(crate::exec::iter_call_u64(&mut it, c)); } },
+                "into" => { let mut it = v.clone().into_iter(); for c in calls { out.push(crate::exec::iter_call_fwd_u64(&mut it, c)); } },
                 "value" => { let mut it = v.value_iter(parse_u64(t[2])); for c in calls { out.push(pair_call(&mut it, c, None)); } },
                 "sel" => { let mut it = v.select_iter(parse_usize(t[2]), parse_u64(t[3])); for c in calls { out.push(pair_call(&mut it, c, None)); } },
                 "pred" => { let mut it = v.predecessor(parse_usize(t[2]), parse_u64(t[3])); for c in calls { out.push(pair_call(&mut it, c, None)); } },
